@@ -47,7 +47,7 @@ func writeManifest() {
 			Level: levelClaimed{Category: cat, Text: c.LevelText, DesignRef: c.DesignRef}, LevelNote: c.LevelNote, Technique: c.Technique,
 		})
 	}
-	var nas []na
+	nas := []na{}
 	reasons := map[string]string{}
 	if b, err := os.ReadFile(filepath.Join(verifDir, "not_applicable.json")); err == nil {
 		json.Unmarshal(b, &reasons)
